@@ -792,3 +792,19 @@ def g_diag2(rng, level=0, n_random=250):
         N = int(rng.integers(1, 6))
         a, b_ = bits(rng, 2 * N), bits(rng, 2 * N)
         yield {'g1': a, 'g2': b_, 'i0': int(rng.integers(0, N))}
+
+
+@gen(CI + 'CliffordGate.compile#generator')
+def g_gate_compile(rng, level=0, n_random=120):
+    for _ in range(n_random):
+        N = int(rng.integers(1, 5))
+        yield {'self': _gate_gen(rng, N)}
+
+
+@gen(PA + 'PauliList.__getitem__#int')
+def g_getitem_int(rng, level=0, n_random=120):
+    pa, _ = _pc()
+    for _ in range(n_random):
+        N = int(rng.integers(1, 4))
+        L = int(rng.integers(1, 5))
+        yield {'self': pa.PauliList(bits(rng, L, 2 * N), rng.integers(0, 4, L).astype(np.int64)), 'item': int(rng.integers(0, L))}
